@@ -231,6 +231,12 @@ Error RACFGBuilder::on_instruction(InstNode* inst, InstControlFlow& cf, RAInstBu
                 allowed_regs = 0x0Fu;
               }
             }
+
+            // GPB-HI register refers to the second byte of the virtual register, so it cannot be patched to the
+            // home slot of the register, which addresses its first byte.
+            if (reg.is_gp8_hi()) {
+              flags &= ~(RATiedFlags::kUseRM | RATiedFlags::kOutRM);
+            }
           }
 
           uint32_t virt_index = Operand::virt_id_to_index(reg.id());
